@@ -294,4 +294,42 @@ Section Contact.
         | None => None
         end
     end.
+
+  (* ------------------------------------------------------------------ the same rules with NO bounding-box test at all:
+     every node of every other cell's faces is handed to resolve_contact (which applies the cut-offs itself) *)
+  Definition try_face_nobox (gfs : list (nat * cface)) (c1i n1i : nat) (acc : option state) (fid : nat) : option state :=
+    match acc with
+    | None => None
+    | Some st =>
+        match nth_error st c1i, nth_error gfs fid with
+        | Some c1, Some gf =>
+            match nth_error st (fst gf), nth_error (cc_nodes c1) n1i with
+            | Some c2, Some n1 =>
+                if negb (Nat.eqb (cc_id c1) (cc_id c2)) then
+                  if vdot N (cn_normal n1) (cf_normal (snd gf)) <? c90
+                  then resolve_contact st c1i n1i gf else Some st
+                else Some st
+            | _, _ => None
+            end
+        | _, _ => None
+        end
+    end.
+  Definition node_loop_nobox (gfs : list (nat * cface)) (st0 : state) : option state :=
+    fold_left (fun acc ci =>
+      match acc with None => None | Some st =>
+        match nth_error st ci with None => None | Some c0 =>
+          fold_left (fun acc2 ni =>
+            match acc2 with None => None | Some st2 =>
+              match nth_error st2 ci with None => None | Some c =>
+                match nth_error (cc_nodes c) ni with None => None | Some n =>
+                  if node_active c n then fold_left (try_face_nobox gfs ci ni) (rev (seq 0 (length gfs))) (Some st2) else Some st2
+                end end end)
+            (seq 0 (length (cc_nodes c0))) (Some st)
+        end end)
+      (seq 0 (length st0)) (Some st0).
+  Definition all_pairs_nobox_phase (st : state) : option state :=
+    match prepare st with
+    | None => None
+    | Some p => match node_loop_nobox (p_gfs p) (p_state p) with Some st2 => centre_pairs st2 | None => None end
+    end.
 End Contact.
